@@ -9,7 +9,7 @@ package swisscard
 // postings between the import account (credited) and the TBD account, in the commodity named by the
 // "Währung" column, over the parsed "Betrag" column; on an error nothing is added.
 // Ghost trace of the calls Read / Parse / MustGet / NewFromString / Add (in that order).
-//@ def wfParserSC2(p *parser) bool := p != nil && p.reader != nil && p.reader.FieldsPerRecord == 12 && p.registry != nil && p.registry.accounts != nil
+//@ def wfParserSC2(p *parser) bool := p != nil && p.reader != nil && p.reader.FieldsPerRecord == 12 && p.registry != nil && wfAccounts(p.registry.accounts)
 //@     && wfCommodities(p.registry.commodities) && p.registry.accounts.index != p.registry.commodities.index && wfBuilder(p.builder) && validAccount(p.account)
 //
 //@ func (*parser).readBooking
